@@ -26,6 +26,8 @@ def candidates(path):
         st = ln.strip()
         if st.startswith('#ifdef LIBCONFUSE_VERIF'):
             skip = True
+        if st.startswith('#ifndef HAVE_'):      # replacement functions that are not compiled here
+            skip = True
         if skip:
             if st.startswith('#endif'):
                 skip = False
@@ -70,6 +72,10 @@ def main():
         lines, c = candidates(os.path.join(repo, f))
         allc += [(f, i, d, new) for i, d, new in c]
     rng.shuffle(allc)
+    only = os.environ.get('MUT_ONLY')          # "src/confuse.c:1115,src/lexer.l:182": re-screen just these lines (use MUT_SCALE=1)
+    if only:
+        want = set(only.split(','))
+        allc = [c for c in allc if '%s:%d' % (c[0], c[1] + 1) in want]
     rep = open(os.path.join(work, 'report.txt'), 'w')
     rep.write('%d candidate mutants; screening %d (seed %d)\n' % (len(allc), n, seed))
     stats = {'compile-fail': 0, 'killed-by-tests': 0, 'killed-by-checks': 0, 'survived': 0}
@@ -87,7 +93,12 @@ def main():
         open(path, 'w', encoding='latin-1').write('\n'.join(lines))
         tag = '%s:%d %s | %s' % (f, i + 1, desc, old.strip()[:90])
         try:
-            rc, out = sh('make -s 2>&1 | tail -3; make check 2>&1 | grep -E "^# (PASS|FAIL|ERROR)"', cwd=repo, timeout=600)
+            try:
+                rc, out = sh('make -s 2>&1 | tail -3; timeout 300 make check 2>&1 | grep -E "^# (PASS|FAIL|ERROR)"', cwd=repo, timeout=900)
+            except subprocess.TimeoutExpired:
+                out = '# PASS: hang'
+            if 'PASS' not in out and 'lexer' in f or 'hang' in out:
+                pass
             if '# PASS:' not in out:
                 stats['compile-fail'] += 1
                 continue
